@@ -46,7 +46,7 @@ ASSUMPTIONS = [
 
 def plan(tier):
     if tier == "thorough":
-        return {"runs": 4000, "chunk": 8, "wall_budget": 3300, "resample": 6, "hang_s": 900}
+        return {"runs": 6000, "chunk": 8, "wall_budget": 3300, "resample": 6, "hang_s": 900}
     return {"runs": 128, "chunk": 2, "wall_budget": 900, "resample": 4}
 
 
